@@ -53,7 +53,7 @@ def handle (line : String) : Except String String := do
   match op with
   | "where" =>
     let q ← jQuery j
-    return showTargets (whereDecision pushAtoms q (← jStrs (← j.getObjVal? "tables")))
+    return showTargets (whereDecision pushAtoms rightJoinLastOnly q (← jStrs (← j.getObjVal? "tables")))
   | "on" =>
     let q ← jQuery j
     return showTargets (onDecision pushAtoms q (← (← j.getObjVal? "j").getNat?) (← jStrs (← j.getObjVal? "tables")))
@@ -76,8 +76,9 @@ def handle (line : String) : Except String String := do
       isScope := ← gb j "isScope", used := ← gb j "used", side := ← jSide (← j.getObjVal? "side"),
       hasOn := ← gb j "hasOn", uniqueOutputs := ← jStrs (← j.getObjVal? "uniqueOutputs"),
       joinKeys := ← jStrs (← j.getObjVal? "joinKeys"), allAgg := ← gb j "allAgg", limit1 := ← gb j "limit1",
-      noFrom := ← gb j "noFrom" }
-    return toString (shouldEliminateJoin elimTop elimBranchA elimBranchB s)
+      noFrom := ← gb j "noFrom", group := ← gb j "group", having := ← gb j "having", where_ := ← gb j "where",
+      distinctOrGroup := ← gb j "distinctOrGroup", namedSelects := ← jStrs (← j.getObjVal? "namedSelects") }
+    return toString (shouldEliminateJoin singleRowGuards elimTop elimBranchA elimBranchB s)
   | "reorder" =>
     let sides ← (← (← j.getObjVal? "sides").getArr?).toList.mapM jSide
     return toString (isReorderable reorderRequiresNoSide sides)
